@@ -134,7 +134,7 @@ pub fn run(run: &mut Run) {
             continue;
         }
         let setup = ClusterSetup { nodes: *nn, strategy, init: vec!["set k v0".into(), "set k v0b".into(), "set c 5".into()] };
-        let cfg = NetCfg { max_states: if quick { 4000 } else { 40000 }, max_path: 300, budget: Duration::from_secs(if quick { 6 } else { 40 }), workers: crate::util::workers() };
+        let cfg = NetCfg { max_states: if quick { 4000 } else { 40000 }, max_path: 300, budget: Duration::from_secs(if quick { 6 } else { 40 }), workers: crate::util::workers(), by_deviations: false };
         let mk = || build(&setup, sc);
         let none = |_: &NetWorld, _: &[T]| -> Vec<(String, String)> { vec![] };
         let conv = |w: &NetWorld, _p: &[T]| converged(w, sc);
